@@ -1,11 +1,14 @@
 #!/bin/sh
-# Run every seeded change against the quick check of its own property (seed ${SEED:-1}); results in seeded/RESULTS.txt
+# Run every seeded change against the quick check of its own property and of the properties its meta.json lists
+# under also_check (seed ${SEED:-1}), ${JOBS:-4} seeds at a time; results, sorted, in seeded/RESULTS.txt
 HERE="$(cd "$(dirname "$0")/.." && pwd)"
+TMP=$(mktemp -d /tmp/verif_seeded_all.XXXXXX)
+ls -d "$HERE"/seeded/*/ | while read -r d; do
+  [ -f "$d/patch.diff" ] && basename "$d"
+done > "$TMP/names"
+xargs -P "${JOBS:-4}" -I{} sh -c "\"$HERE/tools/seeded_check.sh\" {} > \"$TMP/{}.out\" 2>&1" < "$TMP/names"
 : > "$HERE/seeded/RESULTS.txt"
-for d in "$HERE"/seeded/*/; do
-  n=$(basename "$d")
-  [ -f "$d/patch.diff" ] || continue
-  "$HERE/tools/seeded_check.sh" "$n" >> "$HERE/seeded/RESULTS.txt" 2>&1
-done
+while read -r n; do cat "$TMP/$n.out" >> "$HERE/seeded/RESULTS.txt"; done < "$TMP/names"
+rm -rf "$TMP"
 rm -f "$HERE"/replays/*.json 2>/dev/null
 cat "$HERE/seeded/RESULTS.txt"
